@@ -245,20 +245,19 @@ func runB(c CaseB, report func(*core.Violation)) {
 	if compileDirRe.MatchString(b.CompileDir) {
 		dirs[b.CompileDir] = true
 	}
+	var outs []string
+	if b.CompileDir != "" {
+		dirs[b.CompileDir] = true
+	}
 	for _, i := range inv {
 		for k, a := range i.Args {
 			if a == "-o" && k+1 < len(i.Args) {
-				if m := compileDirRe.FindString(i.Args[k+1]); m != "" {
-					dirs[m] = true
-				}
+				outs = append(outs, i.Args[k+1])
+				dirs[filepath.Dir(i.Args[k+1])+"/"] = true
 			}
 		}
 	}
-	defer func() {
-		for d := range dirs {
-			os.RemoveAll(d)
-		}
-	}()
+	defer cleanupBuildDirs(dirs, outs)
 
 	where := fmt.Sprintf("format %s arch %d service name (%s, sent=%v) %q", formatName(c.Format), c.Arch, class, c.HasName, name)
 
